@@ -47,11 +47,12 @@ class Model:
     def __init__(self):
         self.inflight = {"M": [], "P1": [], "P2": []}  # (tag, queue time)
         self.started = True
-        self.real_owed = []  # entries the real instances owe to the wire: (instance, is StopOffer, optional)
+        self.real_owed = []  # entries the real instances owe to the wire: (destination, instance, is StopOffer, optional)
+        self.ready = True  # instances running and past their first offer ("starting": started, first offer not yet idle)
 
     def _canon_(self, now):
         return (tuple((d, tuple((tag, now - q) for tag, q in v)) for d, v in sorted(self.inflight.items())), self.started,
-                tuple(self.real_owed))
+                tuple(self.real_owed), self.ready)
 
     def free_tags(self, n):
         used = {tag for v in self.inflight.values() for tag, _ in v}
@@ -92,6 +93,7 @@ class Sys(e1.TimedSys):
         self.prot.transport.sent.clear()
         self.model = Model()
         self.nsent = 0
+        self.find_session = 0
 
     def close(self):
         self.seam.__exit__(None, None, None)
@@ -108,6 +110,7 @@ class Sys(e1.TimedSys):
                 acts.append(("burst", d, n))
         if self.lifecycle and not self.held:
             acts.append(("ann-stop",) if self.model.started else ("ann-start",))
+            acts.append(("find", "P1"))
         return acts
 
     def do(self, act):
@@ -124,14 +127,25 @@ class Sys(e1.TimedSys):
             # non-cyclic instances: every stop() queues exactly one StopOffer per instance
             # an Offer whose start has not reached the wire yet may never have been queued (the task is
             # cancelled before its first step when stop follows start within two iterations): optional
-            m.real_owed = [(i, z, True) if not z else (i, z, o) for i, z, o in m.real_owed]
-            m.real_owed += [(1, True, False), (2, True, False)]
+            m.real_owed = [(d, i, z, True) if not z else (d, i, z, o) for d, i, z, o in m.real_owed]
+            m.real_owed += [("M", 1, True, False), ("M", 2, True, False)]
+            m.ready = False
             ann.stop()
         elif act[0] == "ann-start":
             m.started = True
             # initial delay 0, no repetitions, non-cyclic: exactly one Offer per instance per start
-            m.real_owed += [(1, False, False), (2, False, False)]
+            m.real_owed += [("M", 1, False, False), ("M", 2, False, False)]
+            m.ready = "starting"
             ann.start()
+        elif act[0] == "find":
+            # a unicast FindService from the peer: every ready instance queues an Offer for the peer
+            self.find_session += 1
+            if m.ready is True:
+                m.real_owed += [(act[1], 1, False, False), (act[1], 2, False, False)]
+            elif m.ready == "starting":
+                m.real_owed += [(act[1], 1, False, True), (act[1], 2, False, True)]  # not specified in this window
+            data = refcodec.sd_message(self.find_session, [("find", self.realsid, 0xFFFF, 0xFF, 3, 0xFFFFFFFF, (), ())])
+            self.prot.datagram_received(data, DEST[act[1]], False)
 
     def after_step(self, ev):
         m = self.model
@@ -153,7 +167,8 @@ class Sys(e1.TimedSys):
             for e in ents:
                 if e[1] != self.tagsid:
                     # a real instance's own Offer / StopOffer: exactly once, too
-                    hit = next((x for x in m.real_owed if x[:2] == (e[2], e[4] == 0)), None) if e[1] == self.realsid else None
+                    cands = [x for x in m.real_owed if x[:3] == (dname, e[2], e[4] == 0)] if e[1] == self.realsid else []
+                    hit = next((x for x in cands if not x[3]), cands[0] if cands else None)
                     if hit is not None:
                         idx = m.real_owed.index(hit)
                         del m.real_owed[idx]
@@ -161,7 +176,7 @@ class Sys(e1.TimedSys):
                             # the StopOffer closes its run: an optional Offer queued before it that did not
                             # precede it on the wire never comes
                             m.real_owed = [x for j, x in enumerate(m.real_owed)
-                                           if not (j < idx and x[0] == e[2] and not x[1] and x[2])]
+                                           if not (j < idx and x[1] == e[2] and not x[2] and x[3])]
                     else:
                         self.viol("exactly-once", "real-entry-duplicate-or-unknown",
                                   f"{'StopOffer' if e[4] == 0 else 'Offer'} of real instance {e[2]} on the wire to {dname} "
@@ -193,7 +208,12 @@ class Sys(e1.TimedSys):
         if not self.loop.idle() or self.held:
             return
         now = self.loop.time()
-        if any(not x[2] for x in m.real_owed) and not self.loop.pending_timers():
+        if m.ready == "starting":
+            m.ready = True  # idle again: the (non-cyclic, zero-delay) instances have queued their first offer
+        if not self.loop.pending_timers():
+            # nothing can leave any more: optional entries that did not come are settled
+            m.real_owed = [x for x in m.real_owed if not x[3]]
+        if any(not x[3] for x in m.real_owed) and not self.loop.pending_timers():
             self.viol("exactly-once", "real-entry-never-sent", f"entries of the real instances still owed with no timer pending: {m.real_owed}")
         for d, v in m.inflight.items():
             for tag, qt in v:
